@@ -171,7 +171,10 @@ func init() {
 			}
 			if i > 1 && r.P(1, 10) { // exactly collinear with the previous segment, beyond it, on it, or back past its start
 				t := []float64{2, 0.5, -1, 1.5, -0.5}[r.Intn(5)]
-				p = orb.Point{ls[i-2][0] + t*(ls[i-1][0]-ls[i-2][0]), ls[i-2][1] + t*(ls[i-1][1]-ls[i-2][1])}
+				q := orb.Point{ls[i-2][0] + t*(ls[i-1][0]-ls[i-2][0]), ls[i-2][1] + t*(ls[i-1][1]-ls[i-2][1])}
+				if !geoC || (math.Abs(q[0]) <= 180 && math.Abs(q[1]) <= 85) { // (great-circle functions need a longitude and a latitude)
+					p = q
+				}
 			}
 			ls = append(ls, p)
 		}
